@@ -337,6 +337,49 @@ pub fn run_capacity(r: &mut Report, analyzer: &str, capacity: usize, extra: usiz
     }
 }
 
+/// The analyzers' own tables, however the analyzer object was built: N > capacity connections are opened (SYN each) and
+/// only then send their request; an analyzer that holds state for at most `capacity` connections can report at most
+/// `capacity` of them, and every way of building a sequential HTTP analyzer for that capacity -- `new`, `with_config`
+/// without `init_pool` (which falls back to the sequential path) for any worker count -- must report the same number.
+fn run_capacity_routes(r: &mut Report) {
+    let d = crate::drv::db_arc();
+    for cap in [1usize, 2, 8] {
+        let n = cap * 4;
+        let (sv_ip, sv_port) = (2u8, 80u16);
+        let mut trace: Vec<Vec<u8>> = (0..n).map(|c| pkt::build(&Spec { src: 1, sport: 41000 + c as u16, dst: sv_ip, dport: sv_port, flags: SYN, seq: 999, ..Spec::default() })).collect();
+        for c in 0..n {
+            let req = format!("GET /{c} HTTP/1.1\r\nHost: c{c}.example\r\nUser-Agent: agent\r\n\r\n").into_bytes();
+            trace.push(pkt::build(&Spec { src: 1, sport: 41000 + c as u16, dst: sv_ip, dport: sv_port, flags: ACK | PSH, seq: 1000, ack: 1, payload: req, ..Spec::default() }));
+        }
+        let count = |v: Result<Vec<crate::drv::HttpRes>, String>| v.map(|v| v.iter().filter(|x| x.request.is_some()).count());
+        let reference = count(crate::drv::http_pcap(&trace, None, cap));
+        let mut routes: Vec<(String, Result<Result<usize, String>, String>)> = vec![("new".into(), Ok(reference.clone()))];
+        for workers in [1usize, 2, 4, 16] {
+            let dd = d.clone();
+            let t = &trace;
+            routes.push((format!("with_config({workers} workers) without init_pool"), guarded(move || count(crate::drv::http_pcap_configured_sequential(t, dd, cap, workers)))));
+        }
+        let uni = guarded(|| crate::drv::uni_pcap(&trace, None, cap).map(|v| v.iter().filter(|x| x.http.request.is_some()).count()));
+        routes.push(("unified".into(), uni));
+        for (name, res) in routes {
+            r.exec(trace.len() as u64);
+            let ctx = || json!({"kind": "capacity-route", "route": name, "capacity": cap, "connections_open_at_once": n});
+            match res {
+                Err(p) => r.dev("C11/capacity-route/panic", "panic", || json!({"ctx": ctx(), "detail": p})),
+                Ok(Err(e)) => r.dev("C11/capacity-route/analysis-failed", "capacity", || json!({"ctx": ctx(), "detail": e})),
+                Ok(Ok(k)) => {
+                    r.outcome(&("capacity-route", &name, cap, k));
+                    if k > cap {
+                        r.dev("C11/capacity-route/state-held-for-more-connections-than-the-capacity", "capacity", || json!({"ctx": ctx(), "connections_still_known_when_their_request_arrives": k}));
+                    } else if Ok(k) != reference && name != "unified" {
+                        r.dev("C11/capacity-route/routes-disagree", "capacity", || json!({"ctx": ctx(), "reported": k, "new_route_reported": format!("{reference:?}")}));
+                    }
+                }
+            }
+        }
+    }
+}
+
 pub fn run(thorough: bool) -> Outcome {
     let n = if thorough { 1_000_000 } else { 16384 };
     let mut jobs: Vec<(String, String, bool, usize)> = vec![];
@@ -362,9 +405,10 @@ pub fn run(thorough: bool) -> Outcome {
             run_capacity(&mut total, an, cap, extra);
         }
     }
+    run_capacity_routes(&mut total);
     Outcome {
         report: total,
-        rule: "deterministic chains: SYN, SYN+ACK, then N segments (1400, 64, 1 or 16000 bytes each, same byte stream; jumbo chains stop at 4096 segments) of 16 never-fingerprinting traffic kinds (incl. many complete small records / frames / lines per segment) x both directions x 4 analyzers; after EVERY packet the bytes retained since the connection started and the bytes allocated while handling the packet are recorded (counting allocator, per thread): hard limits 8 MiB / 16 MiB at every step; above the soft limits (256 KiB retained, 1 MiB + 64 x segment size per packet) the second half of the chain must not exceed the first (retained + 64 KiB, per packet x 1.25 + 64 KiB); capacity families: capacity + k connections (k >= capacity) for capacities 1, 8, 64, 1000 must not retain more than 1.25 x what `capacity` connections retain + 256 KiB; distinct = distinct (chain, peak) outcomes".into(),
+        rule: "deterministic chains: SYN, SYN+ACK, then N segments (1400, 64, 1 or 16000 bytes each, same byte stream; jumbo chains stop at 4096 segments) of 16 never-fingerprinting traffic kinds (incl. many complete small records / frames / lines per segment) x both directions x 4 analyzers; after EVERY packet the bytes retained since the connection started and the bytes allocated while handling the packet are recorded (counting allocator, per thread): hard limits 8 MiB / 16 MiB at every step; above the soft limits (256 KiB retained, 1 MiB + 64 x segment size per packet) the second half of the chain must not exceed the first (retained + 64 KiB, per packet x 1.25 + 64 KiB); capacity families: capacity + k connections (k >= capacity) for capacities 1, 8, 64, 1000 must not retain more than 1.25 x what `capacity` connections retain + 256 KiB; capacity routes: 4 x capacity connections opened before any sends its request, through analyze_pcap of HuginnNetHttp::new, with_config without init_pool (1, 2, 4, 16 workers) and the unified analyzer for capacities 1, 2, 8: at most `capacity` requests can be reported, and all HTTP routes agree; distinct = distinct (chain, peak) outcomes".into(),
         exhaustive: true,
         bounds: json!({"segments_per_chain": n, "segment_bytes": SIZES, "chains": jobs.len(), "retained_limit": RETAINED_LIMIT, "per_packet_limit": PER_PACKET_LIMIT}),
     }
@@ -372,6 +416,10 @@ pub fn run(thorough: bool) -> Outcome {
 
 pub fn replay(ex: &Value) -> Report {
     let mut r = Report::new();
+    if ex["ctx"]["kind"].as_str() == Some("capacity-route") {
+        run_capacity_routes(&mut r);
+        return r;
+    }
     match (ex["analyzer"].as_str(), ex["kind"].as_str()) {
         (Some(a), Some(k)) => run_chain(&mut r, a, k, ex["direction"].as_str() != Some("server"), ex["segments"].as_u64().unwrap_or(2048) as usize, ex["segment_bytes"].as_u64().unwrap_or(1400) as usize),
         (Some(a), None) => run_capacity(&mut r, a, ex["capacity"].as_u64().unwrap_or(8) as usize, 100),
